@@ -22,8 +22,19 @@ def random_scheme(rng, grid=GRID):
     return [list(map(float, b)), list(map(float, t))]
 
 
+def big_scheme(rng):
+    """penalties of very different magnitudes, all exactly representable: huge pairwise costs that differ by one unit"""
+    big = rng.choice([1e6, 2.0 ** 22, 1e7])
+    return rng.choice([[[0.0, 1.0, 1.0, 0.0, big, 0.0], [1.0, 1.0, 0.0, 1.0, 1.0, 0.0]],
+                       [[0.0, 1.0, 1.0, big, big, big], [1.0, 1.0, 0.0, big, big, 0.0]],
+                       [[0.0, 1.0, big, 0.0, 1.0, 1.0], [big, big, 0.0, 1.0, 1.0, 0.0]],
+                       [[0.0, big, 1.0, 0.0, big, 1.0], [1.0, 1.0, 0.0, 1.0, 1.0, 0.0]]])
+
+
 def pick_scheme(rng):
     r = rng.random()
+    if r < 0.05:
+        return big_scheme(rng)
     if r < 0.35:
         return rng.choice(PRESET_SCHEMES)
     if r < 0.5:
